@@ -145,6 +145,9 @@ fn do_probes(kvs: &[Kv], geom: Geom, probes: &[Key], st: &mut Stats, rep: &Repor
 }
 
 pub fn replay(case: &Value) -> Result<String, String> {
+    if let Some(r) = super::seqread::replay(case) {
+        return r;
+    }
     if !case["probes"].is_null() {
         let kvs = if case["big_dense"].as_bool() == Some(true) { big_dense_family() } else { kvs_from(&case["kvs"]) };
         return run_probes(&kvs, geom_from(&case["geom"]), &keys_from(&case["probes"])).map(|n| format!("{} probes agree", n));
@@ -364,5 +367,7 @@ pub fn plan(tier: Tier) -> Plan {
         }
     }));
     p.must_be_nonzero = vec!["fanout_cases".into(), "label_cases".into()];
+    p.rule.push_str(super::seqread::RULE);
+    super::seqread::add_units(&mut p, super::seqread::Class::Lookup, if tier.thorough() { 5 } else { 4 });
     p
 }
